@@ -26,7 +26,7 @@ ASSUMPTIONS = [
 ]
 TECHNIQUE = "reference-model runtime monitor (unconditional baseline from respondents)"
 DESIGN_REF = "DESIGN.md 4 C16"
-WEIGHTS = ["none", "frac", "zeros", "float"]
+WEIGHTS = ["none", "frac", "zeros", "float", "scales", "tiny"]
 REQUIRED_REACH = ["column_index", "nan_at_insertions", "class:pair=CATxCAT", "class:pair=CATxMR",
                   "class:pair=MRxCAT", "class:pair=MRxMR", "class:ndim=3", "class:discriminating"]
 BATCH = 40
